@@ -19,6 +19,7 @@ This module is **private, for internal use by SQLAlchemy**.
 from __future__ import annotations
 
 import math
+import re
 from typing import Type
 
 from . import exc as orm_exc
@@ -365,19 +366,47 @@ class _EvaluatorCompiler:
             lambda a, b: a + b, eval_left, eval_right, clause
         )
 
+    @staticmethod
+    def _like_pattern_to_regex(pattern, escape):
+        # the operand of startswith() / endswith() is part of a LIKE
+        # pattern: "%" and "_" are wildcards unless preceded by the
+        # escape character
+        result = []
+        chars = iter(pattern)
+        for char in chars:
+            if escape and char == escape:
+                result.append(re.escape(next(chars, "")))
+            elif char == "%":
+                result.append(".*")
+            elif char == "_":
+                result.append(".")
+            else:
+                result.append(re.escape(char))
+        return "".join(result)
+
     def visit_startswith_op_binary_op(
         self, operator, eval_left, eval_right, clause
     ):
+        escape = clause.modifiers.get("escape")
+
+        def startswith(a, b):
+            regex = self._like_pattern_to_regex(b, escape)
+            return re.match(regex, a, re.DOTALL) is not None
+
         return self._straight_evaluate(
-            lambda a, b: a.startswith(b), eval_left, eval_right, clause
+            startswith, eval_left, eval_right, clause
         )
 
     def visit_endswith_op_binary_op(
         self, operator, eval_left, eval_right, clause
     ):
-        return self._straight_evaluate(
-            lambda a, b: a.endswith(b), eval_left, eval_right, clause
-        )
+        escape = clause.modifiers.get("escape")
+
+        def endswith(a, b):
+            regex = self._like_pattern_to_regex(b, escape)
+            return re.search(f"(?:{regex})\\Z", a, re.DOTALL) is not None
+
+        return self._straight_evaluate(endswith, eval_left, eval_right, clause)
 
     def visit_unary(self, clause):
         eval_inner = self.process(clause.element)
